@@ -455,30 +455,122 @@ func (cfg *config) printCfg(w io.Writer, skipComments, skipVer, annot bool) {
 				}
 			}
 		}
+		// The clauses are printed member by member, in the order in which
+		// the members were first mentioned: this is the order in which
+		// auditors are evaluated. A clause that uses a variable computed
+		// by a member further down is held back until the clause that
+		// defines the variable has been printed, so that the result can
+		// be parsed again (variables must be defined before they are used).
+		type audClause struct {
+			text    string
+			uses    map[varName]struct{} // the variables the clause refers to
+			defines string               // the variable the clause computes, if any
+		}
+		type audMember struct {
+			// auditor holds the audits/computes/collects/expects clauses;
+			// they are printed in this order.
+			auditor []audClause
+			// observer holds the watches/measures/only helps clauses.
+			observer []audClause
+			// mentioned is set once a clause was printed.
+			mentioned bool
+		}
+		var members []*audMember
+		// undefined is the set of computed variables whose definition
+		// was not printed yet.
+		undefined := make(map[string]bool)
 		for _, an := range cfg.audienceNames {
 			a := cfg.audience[an]
+			m := &audMember{}
 			if a.auditor.activeCond.src != "" {
+				c := audClause{uses: a.auditor.activeCond.deps}
 				if a.auditor.activeCond.src == "true" {
-					fmt.Fprintf(w, "  %s %s\n", fann(a.name), fkw("audits throughout"))
+					c.text = fmt.Sprintf("  %s %s\n", fann(a.name), fkw("audits throughout"))
 				} else {
-					fmt.Fprintf(w, "  %s %s %s\n", fann(a.name), fkw("audits only while"), fre(a.auditor.activeCond.src))
+					c.text = fmt.Sprintf("  %s %s %s\n", fann(a.name), fkw("audits only while"), fre(a.auditor.activeCond.src))
 				}
+				m.auditor = append(m.auditor, c)
 			}
 			for _, as := range a.auditor.assignments {
-				fmt.Fprintf(w, "  %s %s\n", fann(a.name), as.fmt(fkw, fsn, fmod, fre))
+				m.auditor = append(m.auditor, audClause{
+					text:    fmt.Sprintf("  %s %s\n", fann(a.name), as.fmt(fkw, fsn, fmod, fre)),
+					uses:    as.expr.deps,
+					defines: as.targetVar,
+				})
+				undefined[as.targetVar] = true
 			}
 			if a.auditor.expectFsm != nil {
-				fmt.Fprintf(w, "  %s %s %s: %s\n", fann(a.name), fkw("expects"), fmod(a.auditor.expectFsm.name), fre(a.auditor.expectExpr.src))
+				m.auditor = append(m.auditor, audClause{
+					text: fmt.Sprintf("  %s %s %s: %s\n", fann(a.name), fkw("expects"), fmod(a.auditor.expectFsm.name), fre(a.auditor.expectExpr.src)),
+					uses: a.auditor.expectExpr.deps,
+				})
 				a.auditor.fmtFoul(&interpretation, fkw, fann)
 			}
-			for _, varName := range a.observer.obsVarNames {
-				fmt.Fprintf(w, "  %s %s %s\n", fann(a.name), fkw("watches"), varName.fmt(fan, fsn))
+			for _, vn := range a.observer.obsVarNames {
+				m.observer = append(m.observer, audClause{
+					text: fmt.Sprintf("  %s %s %s\n", fann(a.name), fkw("watches"), vn.fmt(fan, fsn)),
+					uses: map[varName]struct{}{vn: {}},
+				})
 			}
 			if a.observer.ylabel != "" {
-				fmt.Fprintf(w, "  %s %s %s\n", fann(a.name), fkw("measures"), a.observer.ylabel)
+				m.observer = append(m.observer, audClause{
+					text: fmt.Sprintf("  %s %s %s\n", fann(a.name), fkw("measures"), a.observer.ylabel)})
 			}
 			if a.observer.disablePlot {
-				fmt.Fprintf(w, "  %s %s\n", fann(a.name), fkw("only helps"))
+				m.observer = append(m.observer, audClause{
+					text: fmt.Sprintf("  %s %s\n", fann(a.name), fkw("only helps"))})
+			}
+			if len(m.auditor)+len(m.observer) > 0 {
+				members = append(members, m)
+			}
+		}
+		ready := func(c audClause) bool {
+			for vn := range c.uses {
+				if vn.actorName == "" && undefined[vn.sigName] {
+					return false
+				}
+			}
+			return true
+		}
+		printClause := func(c audClause) {
+			io.WriteString(w, c.text)
+			delete(undefined, c.defines)
+		}
+		for progress := true; progress; {
+			progress = false
+			for _, m := range members {
+				n := 0
+				for len(m.auditor) > 0 && ready(m.auditor[0]) {
+					printClause(m.auditor[0])
+					m.auditor = m.auditor[1:]
+					n++
+				}
+				var waiting []audClause
+				for _, c := range m.observer {
+					if ready(c) {
+						printClause(c)
+						n++
+					} else {
+						waiting = append(waiting, c)
+					}
+				}
+				m.observer = waiting
+				if n > 0 {
+					progress = true
+					m.mentioned = true
+				}
+				if !m.mentioned {
+					// The members further down must not be mentioned
+					// before this one.
+					break
+				}
+			}
+		}
+		// In a configuration that was parsed, every variable is defined
+		// before the clauses that use it, so nothing is left at this point.
+		for _, m := range members {
+			for _, c := range append(m.auditor, m.observer...) {
+				printClause(c)
 			}
 		}
 		fmt.Fprintln(w, fkw("end"))
